@@ -208,6 +208,15 @@ mod imp {
 
     pub struct De<'a>(pub &'a Tok);
 
+    macro_rules! hinted {
+        ($($m:ident => $name:expr),*) => {
+            $(fn $m<V: Visitor<'de>>(self, v: V) -> Result<V::Value, Err> {
+                hint($name.to_string());
+                self.deserialize_any(v)
+            })*
+        };
+    }
+
     impl<'de, 'a> Deserializer<'de> for De<'a> {
         type Error = Err;
         fn deserialize_any<V: Visitor<'de>>(self, v: V) -> Result<V::Value, Err> {
@@ -244,14 +253,78 @@ mod imp {
                 Tok::Seq(hint, items) => v.visit_seq(SeqA { it: items.iter(), hint: *hint }),
             }
         }
-        serde::forward_to_deserialize_any! {
-            bool i8 i16 i32 i64 i128 u8 u16 u32 u64 u128 f32 f64 char str string
-            bytes byte_buf option unit unit_struct newtype_struct seq tuple
-            tuple_struct map struct enum identifier ignored_any
+        // every type hint is recorded (a non-self-describing format decodes by the hint, so the hints are part of
+        // the wire contract: they must mirror what `Serialize` emits), then the token is delivered as it is
+        hinted! {
+            deserialize_bool => "bool", deserialize_i8 => "i8", deserialize_i16 => "i16", deserialize_i32 => "i32",
+            deserialize_i64 => "i64", deserialize_i128 => "i128", deserialize_u8 => "u8", deserialize_u16 => "u16",
+            deserialize_u32 => "u32", deserialize_u64 => "u64", deserialize_u128 => "u128", deserialize_f32 => "f32",
+            deserialize_f64 => "f64", deserialize_char => "char", deserialize_str => "str", deserialize_string => "string",
+            deserialize_bytes => "bytes", deserialize_byte_buf => "byte_buf", deserialize_option => "option",
+            deserialize_unit => "unit", deserialize_seq => "seq", deserialize_map => "map",
+            deserialize_identifier => "identifier", deserialize_ignored_any => "ignored_any"
+        }
+        fn deserialize_unit_struct<V: Visitor<'de>>(self, _: &'static str, v: V) -> Result<V::Value, Err> {
+            hint("unit_struct".into());
+            self.deserialize_any(v)
+        }
+        fn deserialize_newtype_struct<V: Visitor<'de>>(self, _: &'static str, v: V) -> Result<V::Value, Err> {
+            hint("newtype_struct".into());
+            self.deserialize_any(v)
+        }
+        fn deserialize_tuple<V: Visitor<'de>>(self, len: usize, v: V) -> Result<V::Value, Err> {
+            hint(format!("tuple{}", len));
+            self.deserialize_any(v)
+        }
+        fn deserialize_tuple_struct<V: Visitor<'de>>(self, _: &'static str, len: usize, v: V) -> Result<V::Value, Err> {
+            hint(format!("tuple_struct{}", len));
+            self.deserialize_any(v)
+        }
+        fn deserialize_struct<V: Visitor<'de>>(
+            self,
+            _: &'static str,
+            _: &'static [&'static str],
+            v: V,
+        ) -> Result<V::Value, Err> {
+            hint("struct".into());
+            self.deserialize_any(v)
+        }
+        fn deserialize_enum<V: Visitor<'de>>(
+            self,
+            _: &'static str,
+            _: &'static [&'static str],
+            v: V,
+        ) -> Result<V::Value, Err> {
+            hint("enum".into());
+            self.deserialize_any(v)
         }
         fn is_human_readable(&self) -> bool {
             false
         }
+    }
+
+    thread_local! {
+        static HINTS: std::cell::RefCell<Vec<String>> = const { std::cell::RefCell::new(Vec::new()) };
+    }
+    fn hint(h: String) {
+        HINTS.with(|c| c.borrow_mut().push(h));
+    }
+    fn take_hints() -> String {
+        HINTS.with(|c| {
+            let v = std::mem::take(&mut *c.borrow_mut());
+            // run-length: `u32*5`
+            let mut out: Vec<String> = vec![];
+            let mut i = 0;
+            while i < v.len() {
+                let mut j = i;
+                while j < v.len() && v[j] == v[i] {
+                    j += 1;
+                }
+                out.push(if j - i > 1 { format!("{}*{}", v[i], j - i) } else { v[i].clone() });
+                i = j;
+            }
+            if out.is_empty() { "-".to_string() } else { out.join(",") }
+        })
     }
 
     struct SeqA<'a> {
@@ -421,6 +494,38 @@ mod imp {
             // the sign field delivered as a token of any serde data-model kind (JSON-like formats hand every
             // non-negative integer over as u64, compact ones as the narrowest type, ...)
             // every element of the digit sequence delivered as a token of an explicit kind (kinds may be mixed)
+            // the sequence of `deserialize_*` type hints requested while decoding
+            ("u.de_hints", [w, h @ ..]) => {
+                let t = seq_tok(w, parse_hint(h)?)?;
+                take_hints();
+                let r = BigUint::deserialize(De(&t));
+                let hs = take_hints();
+                match r {
+                    Ok(v) => format!("{} ; {}", ok_u(&v), hs),
+                    Result::Err(_) => format!("err ; {}", hs),
+                }
+            }
+            ("i.de_hints", [s, w, h @ ..]) => {
+                let sv: i64 = s.parse().ok()?;
+                let t = Tok::Seq(Some(2), vec![Tok::I(sv), seq_tok(w, parse_hint(h)?)?]);
+                take_hints();
+                let r = BigInt::deserialize(De(&t));
+                let hs = take_hints();
+                match r {
+                    Ok(v) => format!("{} ; {}", ok_i(&v), hs),
+                    Result::Err(_) => format!("err ; {}", hs),
+                }
+            }
+            ("sign.de_hints", [v]) => {
+                let t = Tok::I(v.parse::<i64>().ok()?);
+                take_hints();
+                let r = num_bigint::Sign::deserialize(De(&t));
+                let hs = take_hints();
+                match r {
+                    Ok(s) => format!("ok {} ; {}", show_sign(s), hs),
+                    Result::Err(_) => format!("err ; {}", hs),
+                }
+            }
             ("u.de_tl", [l, h @ ..]) => {
                 let items: Vec<Tok> =
                     if *l == "." { vec![] } else { l.split(',').map(typed_tok).collect::<Option<Vec<_>>>()? };
